@@ -1,1 +1,3 @@
 import Proofs.Scan
+import Proofs.RunLoop
+import Proofs.Metadata
